@@ -38,6 +38,14 @@ func concWriterJobs(tier string) []*Job {
 			}
 		}
 	}
+	// empty chunks: ReadFrom from an empty source (alone and after a Write), an empty Write
+	for _, num := range nums {
+		for _, x := range [][3]int{{5, 0, 10}, {6, 20, 0}, {6, 0, 0}, {1, 0, 10}, {1, 20, 0}, {8, 0, 10}} {
+			p := base(num, x[0], 1, 1, -1, -1)
+			p["n1"], p["n2"] = x[1], x[2]
+			jobs = append(jobs, cmk("H_conc_w", d, p))
+		}
+	}
 	// one full 64 KiB block and a tail through Write (the only way to a block without Flush)
 	big := cmk("H_conc_w", 1, base(2, 9, 1, 1, -1, -1))
 	jobs = append(jobs, big)
